@@ -66,6 +66,24 @@ Theorem c20_embedded_status_matches_outer : forall code message ds md,
     map fst (ps_details ps) = map (fun d => type_url (kind_of d)) ds.
 Proof. exact embedded_status_matches_outer. Qed.
 
+(* ---- the user metadata ---------------------------------------------------------------------- *)
+(* what is given to with_error_details[_vec]_and_metadata stays on the status and, after the header
+   encoding, arrives per name with its values in order - except the names gRPC reserves *)
+Theorem c20_metadata_kept : forall code message ds md,
+  is_code code = true -> utf8_valid message = true -> bytes_ok message = true ->
+  Forall detail_ok ds -> fits_c code message ds ->
+  hm_get_all md hdr_grpc_status_details = [] ->
+  exists st m st',
+    with_error_details_vec_c code message ds md = Ok st /\ st_md st = md /\
+    to_header_map st = Some m /\ from_header_map m = Some st' /\
+    forall k, hm_get_all (st_md st') k =
+              if existsb (fun k' => bytes_eqb k' k) reserved_headers then [] else hm_get_all md k.
+Proof. exact metadata_kept. Qed.
+(* ... and the set form is by definition the list form of the details it pushes *)
+Theorem c20_set_is_vec_of_pushed : forall code message ed md,
+  with_error_details_c code message ed md = with_error_details_vec_c code message (pushed ed) md.
+Proof. exact with_error_details_is_vec. Qed.
+
 (* ---- decode side: arbitrary bytes as details ------------------------------------------------ *)
 (* for EVERY status (any details bytes whatsoever): no getter panics; check_* say Ok or Err; get_*
    say the same value or the empty one; get_details_* say None when the status is undecodable *)
@@ -197,6 +215,7 @@ Proof. exact kind_of_url_type_url. Qed.
 Print Assumptions c20_details_set_roundtrip.
 Print Assumptions c20_details_vec_roundtrip.
 Print Assumptions c20_embedded_status_matches_outer.
+Print Assumptions c20_metadata_kept.
 Print Assumptions c20_decode_total.
 Print Assumptions c20_wire_roundtrip.
 Print Assumptions c20_payload_roundtrip.
